@@ -255,7 +255,7 @@ pub fn history(prop: &str, i: u64, rng: &mut Rng, out: &mut Outcome, dir: &std::
 
 pub fn run(ctx: &Ctx) -> i32 {
     let dir = ctx.scratch_dir("c03");
-    let n = ctx.budget(250, 10_000) as u64;
+    let n = ctx.budget(1500, 20_000) as u64;
     let out = crate::par::run(ctx, n, std::time::Duration::from_secs(ctx.tier.pick(70, 900)), |i, rng, out| history(&ctx.prop, i, rng, out, &dir));
     let _ = std::fs::remove_dir_all(&dir);
     let floors = vec![
